@@ -31,6 +31,15 @@ import (
 
 const rule = "cases: constructor arguments derived from generated specs - NewRouterInfo (Ed25519 identity, 0..8 addresses built by NewRouterAddress with arbitrary option maps incl. empty values and one-character keys, arbitrary options), NewLeaseSet (destination signing types DSA incl. NULL certificate, P-256, Ed25519, RedDSA; 0..16 leases), NewLeaseSet2 (every flag combination of bits 1-2, 1..16 keys, 1..16 leases, options, offline block created by CreateOfflineSignature with transient types 0,1,7,11), NewEncryptedLeaseSet and NewEncryptedLeaseSetFromDestination (all four accepted key representations, with and without offline block), CreateOfflineSignature (destination types 7, 11). Oracle: constructor succeeded with the private key matching the identity => Verify succeeds; Read*(Bytes()) succeeds with an empty remainder and the parsed value verifies; the independent verifier of C05 (stdlib crypto over the raw bytes, specification prefix) accepts the bytes. Non-trivial: >= 1 option, address, lease beyond the first, or offline block; distinct by output bytes minus signature."
 
+// reuse overwrites a receive buffer the way the next message read into it would.
+// Only applied to the structures property C08 lists as independent of their input
+// (LeaseSet, EncryptedLeaseSet, OfflineSignature).
+func reuse(b []byte) {
+	for i := range b {
+		b[i] = byte(0xa5 ^ i)
+	}
+}
+
 func TestMain(m *testing.M) { ev.Main(m, "C06", rule) }
 
 type Case struct {
@@ -154,12 +163,17 @@ func checkLS(c Case, r *ev.Rec) error {
 	if err != nil {
 		return err
 	}
-	back, err := lease_set.ReadLeaseSet(b)
+	wire := append([]byte{}, b...)
+	back, err := lease_set.ReadLeaseSet(wire)
 	if err != nil {
 		return fmt.Errorf("ReadLeaseSet(NewLeaseSet(...).Bytes()) failed: %v", err)
 	}
 	if err := back.Verify(); err != nil {
 		return fmt.Errorf("LeaseSet no longer verifies after serialise+parse: %v", err)
+	}
+	reuse(wire)
+	if err := back.Verify(); err != nil {
+		return fmt.Errorf("LeaseSet parsed back from its bytes no longer verifies once the receive buffer is reused for other data: %v", err)
 	}
 	dm, n, err := model.DecodeLeaseSet(b)
 	if err != nil || n != len(b) {
@@ -336,12 +350,17 @@ func checkELS(c Case, r *ev.Rec) error {
 	if err != nil {
 		return err
 	}
-	back, rem, err := encrypted_leaseset.ReadEncryptedLeaseSet(b)
+	wire := append([]byte{}, b...)
+	back, rem, err := encrypted_leaseset.ReadEncryptedLeaseSet(wire)
 	if err != nil || len(rem) != 0 {
 		return fmt.Errorf("ReadEncryptedLeaseSet(%s(...).Bytes()) failed: %v (remainder %d)", c.Kind, err, len(rem))
 	}
 	if err := back.Verify(); err != nil {
 		return fmt.Errorf("EncryptedLeaseSet no longer verifies after serialise+parse: %v", err)
+	}
+	reuse(wire)
+	if err := back.Verify(); err != nil {
+		return fmt.Errorf("EncryptedLeaseSet parsed back from its bytes no longer verifies once the receive buffer is reused for other data: %v", err)
 	}
 	dm, n, err := model.DecodeELS(b)
 	if err != nil || n != len(b) {
@@ -381,12 +400,17 @@ func checkOffline(c Case, r *ev.Rec) error {
 		return fmt.Errorf("CreateOfflineSignature output does not verify under the destination key: %v %v", ok, err)
 	}
 	b := off.Bytes()
-	back, rem, err := offline_signature.ReadOfflineSignature(append(append([]byte{}, b...), 1, 2), uint16(id.SigType))
+	wire := append(append([]byte{}, b...), 1, 2)
+	back, rem, err := offline_signature.ReadOfflineSignature(wire, uint16(id.SigType))
 	if err != nil || len(rem) != 2 {
 		return fmt.Errorf("ReadOfflineSignature(Bytes()) failed: %v (remainder %d)", err, len(rem))
 	}
 	if ok, err := back.VerifySignature(id.Sig); !ok || err != nil {
 		return fmt.Errorf("offline signature no longer verifies after serialise+parse: %v %v", ok, err)
+	}
+	reuse(wire)
+	if ok, err := back.VerifySignature(id.Sig); !ok || err != nil {
+		return fmt.Errorf("offline signature parsed back from its bytes no longer verifies once the receive buffer is reused for other data: %v %v", ok, err)
 	}
 	dm, n, err := model.DecodeOffline(b, id.SigType)
 	if err != nil || n != len(b) || !model.Verify(id.SigType, id.Sig, dm.SignedPart(), dm.Sig) {
